@@ -17,7 +17,7 @@ Space (every member is visited, nothing sampled):
   data     : every value of <= S nodes (atoms a/b, omitted items, lists, rows, maps with repeated keys,
              sequences, absent optional containers), nesting depth <= D, width <= W
   text     : the data rendered with a mixed gap layout (blanks, line breaks, end-of-line and multi-line
-             comments, nothing); values of <= 3 nodes (thorough: all) additionally with the 'exotic' layout
+             comments, nothing); values of <= 3 nodes additionally with the 'exotic' layout
              (form feed / U+2028 as blanks, inside multi-line comments and inside one-line comments whose
              remaining text would parse as further items) and values of <= 3 nodes with every uniform
              layout; with a final delimiter in no / every (thorough: also only in the inner) non-empty
@@ -109,9 +109,9 @@ _TIERS = {
               "layouts": ("mixed",), "more_layouts": ("exotic", "tight", "newline", "comment"), "layout_size": 3,
               "fd": (("all", "tight"),), "big_fd": (), "bottom_up_layouts": ("mixed",)},
     "thorough": {"size": 4, "depth": 4, "width": 4, "big_size": 5,
-                 "layouts": ("mixed", "exotic"), "more_layouts": ("tight", "space", "newline", "comment"),
-                 "layout_size": 3, "fd": (("all", "tight"), ("inner", "mixed")), "big_fd": (("all", "tight"),),
-                 "bottom_up_layouts": ("mixed", "tight")},
+                 "layouts": ("mixed",), "more_layouts": ("exotic", "tight", "space", "newline", "comment"),
+                 "layout_size": 3, "fd": (("all", "tight"), ("inner", "exotic")), "big_fd": (("all", "tight"),),
+                 "bottom_up_layouts": ("mixed", "exotic")},
 }
 SEQ_VARIANTS = ("direct", "value")
 
@@ -197,8 +197,12 @@ def build_parser(lopt, mopt, seqvar, order="top-down"):
         "E": [("VALUE",)],
         "VALUE": [("WORD",), (ls,), (ms,), ("SWRAP",)],
     }
+    # wrappers: the closing token reaches the (nullable) template symbol through two enclosing symbols, so
+    # its FOLLOW set needs several propagation steps
     if lopt.wrapped:
-        prods["LWRAP"] = [("<", "LIST", ">")]
+        prods["LWRAP"] = [("<", "LIN", ">")]
+        prods["LIN"] = [("LINB",)]
+        prods["LINB"] = [("LIST",)]
     prods["LIST"] = impl.ListProds("[" if lopt.brackets else None, item, "," if lopt.delim else None,
                                    "]" if lopt.brackets else None,
                                    allow_final_delimiter=lopt.afd, optional=lopt.optional)
@@ -207,13 +211,17 @@ def build_parser(lopt, mopt, seqvar, order="top-down"):
     else:
         prods["ITEM"] = [("VALUE",)] + ([None] if lopt.nullable else [])
     if mopt.wrapped:
-        prods["MWRAP"] = [("(", "MAP", ")")]
+        prods["MWRAP"] = [("(", "MIN", ")")]
+        prods["MIN"] = [("MINB",)]
+        prods["MINB"] = [("MAP",)]
     prods["MAP"] = impl.MapProds("{" if mopt.brackets else None, key, ":", val, ",",
                                  "}" if mopt.brackets else None,
                                  optional=mopt.optional, allow_final_delimiter=mopt.afd)
     if mopt.key_nt:
         prods["KEY"] = [("WORD",), ("NUMBER",)]
-    prods["SWRAP"] = [("@", "SEQ", ";")]
+    prods["SWRAP"] = [("@", "SIN", ";")]
+    prods["SIN"] = [("SINB",)]
+    prods["SINB"] = [("SEQ",)]
     prods["SEQ"] = seq()
     if order == "bottom-up":
         # the same grammar declared leaves first, start symbol last
